@@ -101,7 +101,9 @@ def search(ctx):
             # random pixel subset commutes with the forward calculation
             if nx * ny >= 1:
                 npix = int(rng.integers(1, nx * ny + 1))
-                seed = int(rng.integers(0, 1000))
+                # boundary seeds are as legitimate as any other (0 is falsy in Python, 2**32 - 1 the largest NumPy accepts)
+                seed = int(rng.choice([0, 0, 1, 2 ** 32 - 1, int(rng.integers(0, 1000)), int(rng.integers(0, 2 ** 31))]))
+                np.random.random(int(rng.integers(1, 5)))      # unrelated use of the global generator before ...
                 sub, sel = make_subset_data(det, pixels=npix, return_selection=True, seed=seed)
                 hs = calc_holo(sub, sc, illum_polarization=pol, theory=th, **OPT)
                 full_sub = make_subset_data(hg, pixels=npix, seed=seed)
@@ -111,6 +113,7 @@ def search(ctx):
                                   dict(kind="subset", pixels=npix, seed=seed, **info))
                 if len(set(map(int, sel))) != npix or not all(0 <= v < nx * ny for v in sel):
                     ctx.violation("C07:subset-distinct", "subset selection is not %d distinct pixels" % npix, dict(kind="subset", pixels=npix, seed=seed, **info))
+                np.random.random(int(rng.integers(1, 5)))      # ... and between the two selections
                 sub2, sel2 = make_subset_data(det, pixels=npix, return_selection=True, seed=seed)
                 if not np.array_equal(sel, sel2):
                     ctx.violation("C07:subset-seed", "same seed gives a different subset", dict(kind="subset", pixels=npix, seed=seed, **info))
